@@ -325,6 +325,9 @@ class BaseInterpreter(Generic[TContext, TEvent]):
         self._actor_sources: Dict[str, str] = {}
         #: Current nesting depth of action expansion.
         self._action_depth: int = 0
+        #: Nested pure/choose/enqueueActions expansions performed under the
+        #: top-level action that is currently executing.
+        self._action_expansions: int = 0
         self._actors: Dict[str, "BaseInterpreter[Any, Any]"] = {}
 
         # 🔗 Extensibility & Introspection
@@ -1649,13 +1652,29 @@ class BaseInterpreter(Generic[TContext, TEvent]):
         #    older versions and an Exception here, previously left the machine
         #    in an indeterminate state. A depth counter turns an authoring
         #    mistake into a clear, contained log message.
+        #
+        # 📝 Depth alone bounds the *height* of the expansion, not its size: a
+        #    callback that enqueues itself twice is still cut at every leaf,
+        #    but only after 2**MAX_ACTION_DEPTH expansions. So the expansions
+        #    under one top-level action are counted as well and cut once they
+        #    exceed the machine's `maxIterations` budget.
         depth = getattr(self, "_action_depth", 0)
-        if depth > self.MAX_ACTION_DEPTH:
+        if depth == 0:
+            self._action_expansions = 0
+        elif canonical in (PURE, CHOOSE, ENQUEUE_ACTIONS):
+            self._action_expansions += 1
+        budget = max(
+            getattr(self.machine, "max_iterations", 1000),
+            self.MAX_ACTION_DEPTH,
+        )
+        if depth > self.MAX_ACTION_DEPTH or self._action_expansions > budget:
             logger.error(
-                "🔁 Nested action expansion exceeded %d levels while handling "
-                "'%s'. Aborting this branch; check for an enqueueActions or "
-                "pure callback that re-enqueues itself.",
+                "🔁 Nested action expansion exceeded %d levels (or %d "
+                "expansions) while handling '%s'. Aborting this branch; check "
+                "for an enqueueActions or pure callback that re-enqueues "
+                "itself.",
                 self.MAX_ACTION_DEPTH,
+                budget,
                 action_def.type,
             )
             return []
